@@ -49,6 +49,9 @@ CHECKS = {
  "C15": ("exhaustive enumeration of password statements (full product over passwords, deviation-bounded layouts) with an exact-span oracle",
          "Both password statement kinds x every password of length <=2 (3) over a 10-symbol alphabet (marker letters, space, both quotes, backslash, =, ;, tab, newline) x 8 user names x layouts (keyword case, every gap from none/space/tab/LF/CRLF/block comment/line comment) x contexts (alone, among other statements, two password statements, no space after ';'), counting only texts the parser accepts. Sanitize(text) must equal the text with exactly the password literal spans replaced by [REDACTED]; String() must contain [REDACTED] and no marker; every non-password statement within 1 deviation and hand-picked texts that contain the words must come back unchanged.",
          "The expected span comes from the harness's own renderer. Passwords longer than the bound are not visited.", "3/C15"),
+ "C06": ("exhaustive enumeration of strings through quote-then-scan and statement templates",
+         "Every string of length <=3 (4) over a 24-symbol alphabet containing every character class the escaper and the lexer distinguish (incl. NUL, CR, an invalid UTF-8 byte), every keyword in every case pattern, every 2-rune string over a rune set, and (db, rp, measurement) triples over 8 segment values incl. the empty middle: QuoteString/QuoteIdent must scan back to exactly one STRING/IDENT with the same value (expressible strings), IdentNeedsQuotes must agree with scanning the bare text, and the quoted value inserted into 12 statement templates must either be rejected or change exactly the slot's leaf in the template's AST.",
+         "Expressible = valid UTF-8 without NUL or CR, as the property states. Strings longer than the bound are not visited.", "3/C06"),
 }
 ALL = ["C%02d" % i for i in range(1, 21)]
 NOT_YET = "check not built yet in this revision of /verif (work in progress; see DESIGN.md section 3 for the planned bounded-exhaustive check)"
